@@ -150,7 +150,7 @@ pub fn run(ctx: &mut Ctx) -> (&'static str, String, bool) {
             let g = c.gen();
             // random joint assignments, multi-codepage text, full element counts, boundary-biased integers
             for (n, text) in [(n_mixed, TextMode::Mixed), (n_ascii, TextMode::Ascii)] {
-                let o = GenOpts { text, max_list: None, boundary: 6 };
+                let o = GenOpts { text, max_list: None, boundary: 6, hostile: false };
                 for i in 0..n {
                     let mut fm = g.packet(&mut r, lay, &o);
                     fix_mso(&mut fm);
@@ -161,7 +161,7 @@ pub fn run(ctx: &mut Ctx) -> (&'static str, String, bool) {
                 }
             }
             // systematic single-field sweeps (all 256 values of byte fields, every enumerant, every flag bit, ...)
-            let o = GenOpts { text: TextMode::Ascii, max_list: Some(4), boundary: 0 };
+            let o = GenOpts { text: TextMode::Ascii, max_list: Some(4), boundary: 0, hostile: false };
             for _ in 0..bases {
                 let mut base = g.packet(&mut r, lay, &o);
                 fix_mso(&mut base);
@@ -195,7 +195,7 @@ pub fn run(ctx: &mut Ctx) -> (&'static str, String, bool) {
                 }
                 // MSO: TextStart at every character boundary of a multi-codepage message
                 if lay.name == "MSO" {
-                    let om = GenOpts { text: TextMode::Mixed, max_list: None, boundary: 0 };
+                    let om = GenOpts { text: TextMode::Mixed, max_list: None, boundary: 0, hostile: false };
                     for _ in 0..if thorough { 40 } else { 6 } {
                         let m = g.packet(&mut r, lay, &om);
                         if let Some(Val::T(t)) = m.get("Msg") {
